@@ -196,7 +196,7 @@ class C12(Lab):
         "an exception raised from __set_name__ may arrive wrapped in RuntimeError on older Pythons (both accepted)",
     )
     budgets = {"quick": 6000, "thorough": 200000}
-    time_budget = {"quick": 80, "thorough": 1200}
+    time_budget = {"quick": 240, "thorough": 3600}
     exhaustive_note = "every attribute name of StateMachine (dir()) x 3 decorators; 14 illegal signature kinds x 3 decorators; 16 legal signatures x 3 decorators"
 
     def setup(self):
